@@ -198,6 +198,57 @@ public:
 	virtual void SetStringById(const uint32_t id, const std::string& str) = 0;
 };
 
+#ifdef NIFLY_VERIF
+// Verification hooks (guard NIFLY_VERIF): an optional observer sees every primitive transfer between a block and
+// the stream. It can record the transfer (wire trace) or, when reading, supply the value itself (generator mode).
+namespace verif {
+enum class Kind : uint8_t { Bool, Int, Float, Enum, Other, Raw, Half, Line, CStr };
+
+struct SyncObserver {
+	virtual ~SyncObserver() = default;
+	// A primitive of 'size' bytes at 'ptr' is about to be read into / written from 'ptr'.
+	// Return true if the observer handled it (the transfer is skipped).
+	virtual bool onPrim(void* ptr, std::streamsize size, Kind kind, bool reading) = 0;
+	// A string-valued primitive (SyncLine / SyncString / getline / getstring) is about to be transferred.
+	virtual bool onText(std::string* str, char* buf, std::streamsize maxCount, Kind kind, bool reading) = 0;
+	// The next primitive is the index of this block reference.
+	virtual void onRef(void* ref, bool reading) = 0;
+	// The next primitives are this string reference (index, or length + text before 20.1.0.3).
+	virtual void onStr(void* strRef, bool reading) = 0;
+};
+
+inline SyncObserver*& observer() {
+	static SyncObserver* o = nullptr;
+	return o;
+}
+
+// Nesting depth of instrumented calls: only the outermost one is reported.
+inline int& depth() {
+	static int d = 0;
+	return d;
+}
+
+struct Scope {
+	Scope() { ++depth(); }
+	~Scope() { --depth(); }
+};
+
+template<typename T>
+constexpr Kind kindOf() {
+	if constexpr (std::is_same_v<T, bool>)
+		return Kind::Bool;
+	else if constexpr (std::is_floating_point_v<T>)
+		return Kind::Float;
+	else if constexpr (std::is_enum_v<T>)
+		return Kind::Enum;
+	else if constexpr (std::is_integral_v<T>)
+		return Kind::Int;
+	else
+		return Kind::Other;
+}
+} // namespace verif
+#endif
+
 class NiStreamBase {
 private:
 	NiHeaderBase* header = nullptr;
@@ -222,9 +273,28 @@ public:
 		: NiStreamBase(hdr)
 		, stream(s) {}
 
+#ifdef NIFLY_VERIF
+	void read(char* ptr, std::streamsize count) {
+		if (verif::observer() && verif::depth() == 0 && verif::observer()->onPrim(ptr, count, verif::Kind::Raw, true))
+			return;
+		stream->read(ptr, count);
+	}
+	void getline(char* ptr, std::streamsize maxCount) {
+		if (verif::observer() && verif::depth() == 0
+			&& verif::observer()->onText(nullptr, ptr, maxCount, verif::Kind::Line, true))
+			return;
+		stream->getline(ptr, maxCount);
+	}
+	void getstring(std::string& str) {
+		if (verif::observer() && verif::depth() == 0 && verif::observer()->onText(&str, nullptr, 0, verif::Kind::CStr, true))
+			return;
+		std::getline(*stream, str, '\0');
+	}
+#else
 	void read(char* ptr, std::streamsize count) { stream->read(ptr, count); }
 	void getline(char* ptr, std::streamsize maxCount) { stream->getline(ptr, maxCount); }
 	void getstring(std::string& str) { std::getline(*stream, str, '\0'); }
+#endif
 
 	// Be careful with sizes of structs and classes
 	template<typename T>
@@ -245,17 +315,29 @@ public:
 		, stream(s) {}
 
 	void write(const char* ptr, std::streamsize count) {
+#ifdef NIFLY_VERIF
+		if (verif::observer() && verif::depth() == 0)
+			verif::observer()->onPrim(const_cast<char*>(ptr), count, verif::Kind::Raw, false);
+#endif
 		stream->write(ptr, count);
 		blockSize += count;
 	}
 
 	void writeline(const char* ptr, std::streamsize count) {
+#ifdef NIFLY_VERIF
+		if (verif::observer() && verif::depth() == 0)
+			verif::observer()->onText(nullptr, const_cast<char*>(ptr), count, verif::Kind::Line, false);
+#endif
 		stream->write(ptr, count);
 		stream->write("\n", 1);
 		blockSize += count + 1;
 	}
 
 	void writestring(const std::string& str) {
+#ifdef NIFLY_VERIF
+		if (verif::observer() && verif::depth() == 0)
+			verif::observer()->onText(const_cast<std::string*>(&str), nullptr, 0, verif::Kind::CStr, false);
+#endif
 		auto count = static_cast<std::streamsize>(str.size());
 		stream->write(str.data(), count);
 		stream->write("\0", 1);
@@ -289,6 +371,12 @@ public:
 
 	template<typename T>
 	void Sync(T& t) {
+#ifdef NIFLY_VERIF
+		if (verif::observer() && verif::depth() == 0
+			&& verif::observer()->onPrim(&t, sizeof(T), verif::kindOf<T>(), mode == Mode::Reading))
+			return;
+		verif::Scope verifScope;
+#endif
 		Sync(reinterpret_cast<char*>(&t), sizeof(T));
 	}
 
@@ -321,6 +409,12 @@ public:
 	}
 
 	void Sync(char* ptr, std::streamsize count) {
+#ifdef NIFLY_VERIF
+		if (verif::observer() && verif::depth() == 0
+			&& verif::observer()->onPrim(ptr, count, verif::Kind::Raw, mode == Mode::Reading))
+			return;
+		verif::Scope verifScope;
+#endif
 		if (mode == Mode::Reading)
 			istream->read(ptr, count);
 		else
@@ -342,6 +436,12 @@ public:
 	}
 
 	void SyncHalf(float& fl) {
+#ifdef NIFLY_VERIF
+		if (verif::observer() && verif::depth() == 0
+			&& verif::observer()->onPrim(&fl, 2, verif::Kind::Half, mode == Mode::Reading))
+			return;
+		verif::Scope verifScope;
+#endif
 		half_float::half halfData;
 
 		if (mode == Mode::Writing)
@@ -772,7 +872,15 @@ public:
 	NiBlockRef() {}
 	NiBlockRef(const uint32_t id) { NiRef::index = id; }
 
+#ifdef NIFLY_VERIF
+	void Sync(NiStreamReversible& stream) {
+		if (verif::observer() && verif::depth() == 0)
+			verif::observer()->onRef(static_cast<NiRef*>(this), stream.GetMode() == NiStreamReversible::Mode::Reading);
+		stream.Sync(base::index);
+	}
+#else
 	void Sync(NiStreamReversible& stream) { stream.Sync(base::index); }
+#endif
 };
 
 template<typename T>
